@@ -51,8 +51,14 @@ func (m *Model) Clone() *Model {
 		nd := &MDB{Name: d.Name, MaxID: d.MaxID}
 		for _, t := range d.Tables {
 			nt := &MTable{Name: t.Name, Cols: append([]Col(nil), t.Cols...)}
-			for _, r := range t.Rows {
-				nt.Rows = append(nt.Rows, &MRow{ID: r.ID, Vals: append([]Val(nil), r.Vals...)})
+			// the value slice of a row is never changed in place (an update puts a
+			// new slice there), so clones share it; the row header is copied
+			// because observed row ids are filled in per model
+			nt.Rows = make([]*MRow, len(t.Rows))
+			hdr := make([]MRow, len(t.Rows))
+			for i, r := range t.Rows {
+				hdr[i] = MRow{ID: r.ID, Vals: r.Vals}
+				nt.Rows[i] = &hdr[i]
 			}
 			nd.Tables = append(nd.Tables, nt)
 		}
